@@ -53,7 +53,8 @@ def header(fmt, given=None):
     return h
 
 FORMATS = ["", "plain text", "%%", "100%% sure", "%d", "%i items", "x=%5d;", "%-08.3lld|", "%+.2f", "%10.4e%%", "%s", "[%-10s]", "%c%c", "%d%d", "%d %s %f", "a%$b", "%$", "%$%$",
-           "%p", "%x%X%o%u", "%lu-%hhd", "%G%a%A%F%E%g", "end%d", "%s%%%c", "%#x %05i", "%li", "%f"]
+           "%p", "%x%X%o%u", "%lu-%hhd", "%G%a%A%F%E%g", "end%d", "%s%%%c", "%#x %05i", "%li", "%f",
+           "% ld", "x=% 6ld;", "%- 6ld|", "% f", "% .2e", "%+05d", "%#o%#X", "%-+ #012.5lld", "%hd%hu", "%zu %jd %td", "%Lf", "%.0f%5.1g", "%-5c|", "%.3s"]
 
 def jobs(tier, prefix="C14"):
     from props import seqcases
